@@ -158,5 +158,60 @@ func TestGovcBounded(t *testing.T) {
 	if !rec() {
 		return
 	}
+	// time-bounded backups: a full backup, more data files, a backup of what changed since the first one was
+	// started; restoring both in order gives the source's content. (`since` is taken a few milliseconds before
+	// the next write - the file system stamps files with a coarser clock than time.Now.)
+	for _, later := range [][]string{{"overwrite", "flush"}, {"overwrite", "flush", "write", "flush"}} {
+		cases++
+		src := MustOpenEngine("inmem")
+		govcBoundedPrepare(src)
+		fail := func(format string, args ...interface{}) {
+			src.Close()
+			fmt.Printf("GOVC-BOUNDED-FAIL incremental backup after write, flush, full backup, %v: %s\n", later, fmt.Sprintf(format, args...))
+		}
+		if err := apply(src, "write"); err != nil {
+			fail("%v", err)
+			return
+		}
+		if err := apply(src, "flush"); err != nil {
+			fail("%v", err)
+			return
+		}
+		var full, inc bytes.Buffer
+		if err := src.Backup(&full, "", time.Unix(0, 0)); err != nil {
+			fail("full backup: %v", err)
+			return
+		}
+		time.Sleep(30 * time.Millisecond)
+		since := time.Now()
+		time.Sleep(30 * time.Millisecond)
+		for _, op := range later {
+			if err := apply(src, op); err != nil {
+				fail("%s: %v", op, err)
+				return
+			}
+		}
+		want := govcBoundedRead(src)
+		if err := src.Backup(&inc, "", since); err != nil {
+			fail("backup since: %v", err)
+			return
+		}
+		dst := MustOpenEngine("inmem")
+		govcBoundedPrepare(dst)
+		err := dst.Restore(bytes.NewReader(full.Bytes()), "")
+		if err == nil {
+			err = dst.Restore(bytes.NewReader(inc.Bytes()), "")
+		}
+		got := ""
+		if err == nil {
+			got = govcBoundedRead(dst)
+		}
+		dst.Close()
+		if err != nil || got != want {
+			fail("the source answers %q; full backup + backup since %s restored in order answer %q (%v)", want, since.Format(time.RFC3339Nano), got, err)
+			return
+		}
+		src.Close()
+	}
 	fmt.Printf("GOVC-BOUNDED-OK cases=%d max_history=%d\n", cases, maxLen)
 }
